@@ -4,22 +4,31 @@ Open Scope Z_scope.
 
 (* per key: events in the order the backend commands really ran, with what each returned *)
 (* per task: wait flag, refused attempts, attempts, how its call ended (0 entered and left, 1 LockedError, 2 cancelled, 3 never ended) *)
-Inductive case := CLock (traces : list (list (event * bool))) (policy : list (bool * nat * nat * nat)).
+(* a trace element: a lock command (with what it returned), or the start / end of a guarded body *)
+Inductive tev := E (e : event) | SecIn (i : nat) | SecOut (i : nat).
+Inductive case := CLock (traces : list (list (tev * bool))) (policy : list (bool * nat * nat * nat)).
 
-Fixpoint replay (c : cfg) (tr : list (event * bool)) : bool :=
+Fixpoint replay (c : cfg) (tr : list (tev * bool)) : bool :=
   match tr with
   | [] => true
-  | (e, r) :: rest => let '(c', r') := step c e in
-                      (match e with Tick _ => true | _ => Bool.eqb r r' end) && replay c' rest
+  | (E e, r) :: rest => let '(c', r') := step c e in
+                        (match e with Tick _ => true | _ => Bool.eqb r r' end) && replay c' rest
+  | (SecIn i, _) :: rest => (match tasks c i with Inside _ _ _ => true | Idle => false end) && replay c rest   (* a body runs only between its task's acquisition and release *)
+  | (SecOut _, _) :: rest => replay c rest
   end.
 
 (* ---------- oracle from the observations ---------- *)
 (* inside : (task, entered at, ttl);  holder : (task, deadline) as the ideal lock sees it *)
-Fixpoint ok_lock (now : Z) (inside : list (nat * Z * Z)) (holder : option (nat * Z)) (tr : list (event * bool)) : bool :=
+Fixpoint ok_lock (now : Z) (inside : list (nat * Z * Z)) (holder : option (nat * Z)) (tr : list (tev * bool)) : bool :=
   match tr with
   | [] => match inside with [] => true | _ => false end              (* every task that entered has released *)
-  | (Tick dt, _) :: rest => ok_lock (now + dt) inside holder rest
-  | (Try i ttl, r) :: rest =>
+  | (SecIn i, _) :: rest =>
+      (* the guarded body runs while its task is between acquisition and release; whoever else is in that state has overstayed *)
+      existsb (fun x => Nat.eqb (fst (fst x)) i) inside &&
+      forallb (fun x => let '(j, a, t) := x in Nat.eqb j i || (a + t <=? now)) inside && ok_lock now inside holder rest
+  | (SecOut i, _) :: rest => existsb (fun x => Nat.eqb (fst (fst x)) i) inside && ok_lock now inside holder rest
+  | (E (Tick dt), _) :: rest => ok_lock (now + dt) inside holder rest
+  | (E (Try i ttl), r) :: rest =>
       let free := match holder with Some (_, d) => d <=? now | None => true end in
       Bool.eqb r free &&                                              (* acquired iff no live holder: nothing else matters *)
       (if r then
@@ -27,11 +36,11 @@ Fixpoint ok_lock (now : Z) (inside : list (nat * Z * Z)) (holder : option (nat *
          forallb (fun x => let '(_, a, t) := x in a + t <=? now) inside &&
          ok_lock now ((i, now, ttl) :: inside) (Some (i, now + ttl)) rest
        else ok_lock now inside holder rest)
-  | (Leave i, r) :: rest =>
+  | (E (Leave i), r) :: rest =>
       let mine := match holder with Some (j, d) => Nat.eqb i j && (now <? d) | None => false end in
       Bool.eqb r mine &&
       ok_lock now (filter (fun x => negb (Nat.eqb (fst (fst x)) i)) inside) (if mine then None else holder) rest
-  | (ForeignUnlock _, r) :: rest => negb r && ok_lock now inside holder rest     (* a foreign token releases nothing *)
+  | (E (ForeignUnlock _), r) :: rest => negb r && ok_lock now inside holder rest     (* a foreign token releases nothing *)
   end.
 
 (* waiting policy: a waiting caller is never turned away (it keeps attempting until it acquires); a caller that does
@@ -49,4 +58,4 @@ Definition judge (c : case) : verdict :=
   | CLock traces policy => (forallb (replay init) traces, forallb (ok_lock 0 [] None) traces && forallb ok_policy policy, [])
   end.
 Definition explain (c : case) :=
-  match c with CLock traces _ => map (fun tr => snd (fold_left (fun cr e => let '(c, rs) := cr in let '(c', r) := step c (fst e) in (c', rs ++ [r])) tr (init, []))) traces end.
+  match c with CLock traces _ => map (fun tr => snd (fold_left (fun cr e => let '(c, rs) := cr in match fst e with E ev => let '(c', r) := step c ev in (c', rs ++ [r]) | _ => (c, rs ++ [true]) end) tr (init, []))) traces end.
